@@ -64,9 +64,19 @@ class Effects:
             for name, v in c.attrs.items():
                 if _mutable_value(v):
                     self.shared_class_attrs.setdefault(name, []).append(c)
-        # metaclass-created registries
-        self.shared_class_attrs.setdefault('rule_value_classes', [])
-        self.shared_class_attrs.setdefault('rule_type_classes', [])
+        # class attributes created by a metaclass (new_cls.X = <mutable> in __new__ / __init__ of a type subclass)
+        self.meta_attrs = set()
+        for c in self.prog.classes.values():
+            if 'type' in [b for b in c.mro if isinstance(b, str)]:
+                for m in c.methods.values():
+                    if m.name in ('__new__', '__init__'):
+                        for n in walk_own(m.node):
+                            if isinstance(n, ast.Assign) and _mutable_value(n.value):
+                                for t in n.targets:
+                                    if isinstance(t, ast.Attribute):
+                                        self.meta_attrs.add(t.attr)
+        for a in self.meta_attrs:
+            self.shared_class_attrs.setdefault(a, [])
         # attributes owned by shared classes vs by others
         owned_shared, owned_other = set(), set()
         for c in self.prog.classes.values():
@@ -107,7 +117,34 @@ class Effects:
                         for e in t.elts:
                             if isinstance(e, ast.Name):
                                 al.setdefault(e.id, []).append(n.value)
+            elif isinstance(n, (ast.For, ast.AsyncFor)):
+                it = n.iter
+                # for x in C / C.values() / C.items() / C[k] ... : x denotes an element of C
+                while isinstance(it, ast.Call) and isinstance(it.func, ast.Attribute) and it.func.attr in ('values', 'items', 'keys', 'get', 'copy'):
+                    it = it.func.value
+                if isinstance(it, ast.Call) and isinstance(it.func, ast.Name) and it.func.id in ('list', 'tuple', 'iter', 'reversed', 'enumerate', 'sorted') and it.args:
+                    it = it.args[0]
+                for x in ast.walk(n.target):
+                    if isinstance(x, ast.Name):
+                        al.setdefault(x.id, []).append(it)
         return al
+
+    def _class_object(self, f, e):
+        """Is ``e`` an expression denoting a class object (type(self), self.__class__, cls of a classmethod)?"""
+        if isinstance(e, ast.Call) and isinstance(e.func, ast.Name) and e.func.id == 'type' and len(e.args) == 1:
+            return True
+        if isinstance(e, ast.Attribute) and e.attr == '__class__':
+            return True
+        if isinstance(e, ast.Name):
+            g = f
+            while g is not None:
+                if g.cls is not None and 'classmethod' in g.decorators() and g.params() and g.params()[0] == e.id:
+                    return True
+                g = g.outer
+            r = self.prog.resolve_global(f.mod, e.id) if not self.cg._is_local(f, e.id) else None
+            if isinstance(r, Cls):
+                return True
+        return False
 
     def _shared_base(self, f, e, aliases, depth=0):
         """Why the object denoted by ``e`` is shared, or None."""
@@ -133,6 +170,10 @@ class Effects:
                 if why:
                     return why
             return None
+        if isinstance(e, ast.Attribute) and self._class_object(f, e.value):
+            if e.attr in self.shared_class_attrs or e.attr in self.meta_attrs:
+                return 'class-level container %s' % e.attr
+            return 'attribute %s of a class object' % e.attr
         if isinstance(e, ast.Attribute):
             ts = self.cg.type_of(f, e.value)
             if ts:
@@ -199,11 +240,18 @@ class Effects:
                         if isinstance(sub.value, ast.Name) and sub.value.id == sn and f.name == '__init__':
                             continue
                         ts = self.cg.type_of(f, sub.value)
-                        if ts:
+                        if self._class_object(f, sub.value) and not (f.name in ('__new__', '__init__') and own_cls is not None
+                                                                      and 'type' in [b for b in own_cls.mro if isinstance(b, str)]):
+                            out.append((n, 'attribute %s of a class object' % sub.attr))
+                        elif ts:
                             if any(x in self.shared_classes for x in ts):
                                 out.append((n, 'attribute %s of shared class %s' % (sub.attr, sorted(x.name for x in ts)[0])))
                         elif sub.attr in self.exclusive:
                             out.append((n, 'attribute %s, which only shared classes own' % sub.attr))
+                        elif isinstance(sub.value, ast.Name) and self.cg._is_local(f, sub.value.id):
+                            why = self._shared_base(f, sub.value, aliases)
+                            if why:
+                                out.append((n, 'attribute %s of an object taken from shared state (%s)' % (sub.attr, why)))
                     elif isinstance(sub, ast.Name) and isinstance(n, (ast.Assign, ast.AugAssign)):
                         # rebinding a module global
                         for g in walk_own(f.node):
@@ -486,9 +534,20 @@ def eff_5(ctx, rep):
     rep.ob('EFF-5', init.mod.rel, init.qual, 'per-instance rule instances and issue list', ok,
            'rule instances / issue list live on the class and are shared between calls')
     ir = prog.func('parso/normalizer.py', 'Normalizer._instantiate_rules')
-    ok = any(isinstance(n, ast.Assign) and isinstance(n.value, ast.Dict) and not n.value.keys for n in walk_own(ir.node))
     rets = [n for n in walk_own(ir.node) if isinstance(n, ast.Return)]
-    rep.ob('EFF-5', ir.mod.rel, ir.qual, 'fresh dict of fresh rule instances', ok and len(rets) == 1, 'rule table reused across normalizers')
+    ok = bool(rets)
+    for r in rets:
+        if not isinstance(r.value, ast.Name):
+            ok = False
+            continue
+        vals = [n.value for n in walk_own(ir.node) if isinstance(n, ast.Assign)
+                and any(isinstance(t, ast.Name) and t.id == r.value.id for t in n.targets)]
+        if not vals or not all(isinstance(v, ast.Dict) and not v.keys for v in vals):
+            ok = False
+    created = [n for n in walk_own(ir.node) if isinstance(n, ast.Call) and isinstance(n.func, ast.Name)
+               and [norm(a) for a in n.args] == [ir.params()[0]]]
+    rep.ob('EFF-5', ir.mod.rel, ir.qual, 'returns a dict created in this call, filled with rule_cls(self) instances', ok and bool(created),
+           'the rule table (or the rule instances in it) outlives one normalizer: rules report to whichever normalizer was created last')
     for q in ('ErrorFinder.__init__', 'ErrorFinder.initialize'):
         m = prog.func('parso/python/errors.py', q)
         sn = m.params()[0]
